@@ -32,3 +32,15 @@ Print Assumptions refs_counted.
 Theorem no_restricted_refs : forallb unrestricted refs = true.
 Proof. exact no_restricted_refs_lemma. Qed.
 Print Assumptions no_restricted_refs.
+
+(* no attribute name used on a value of unknown type is one of the names removed from numpy
+   arrays / h5py objects / builtins inside the declared range (name-based heuristic) *)
+Theorem no_removed_methods : forallb method_ok method_names = true.
+Proof. exact no_removed_methods_lemma. Qed.
+Print Assumptions no_removed_methods.
+
+(* every directory of the package that contains modules is listed in setup.py `packages`,
+   so that an installed copy can import each sub-package *)
+Theorem all_dirs_packaged : unpackaged_dirs = [].
+Proof. exact all_dirs_packaged_lemma. Qed.
+Print Assumptions all_dirs_packaged.
